@@ -29,7 +29,7 @@ ASSUMPTIONS = [
     "reading chosen: scatter=False always uses beamline(False)+kinematic('tof') whatever the origin",
     'value tolerance 1e-9 relative (fingerprints differ by >= 3e-2)',
 ]
-REQUIRED_CLASSES = ['value', 'runtime_error', 'mode_ambiguous', 'direct_inelastic', 'indirect_inelastic', 'supplied_precedence', 'nan_result']
+REQUIRED_CLASSES = ['precision_float32', 'precision_float64', 'precision_int64', 'value', 'runtime_error', 'mode_ambiguous', 'direct_inelastic', 'indirect_inelastic', 'supplied_precedence', 'nan_result']
 BOUND = {
     'quick': '4 origins x 13 targets x 2 scatter x 2048 subsets, DataArray',
     'thorough': '4 origins x 19 targets x 2 scatter x 2048 subsets x {DataArray, Dataset}, plus origin-coordinate-absent bit for origin tof',
@@ -160,7 +160,7 @@ def _expected(graph, name, envv, used):
 
 def cases(tier):
     out = []
-    targets = TARGETS + (TARGETS_EXTRA if tier == 'thorough' else ())
+    targets = TARGETS + TARGETS_EXTRA
     containers = ('DataArray', 'Dataset') if tier == 'thorough' else ('DataArray',)
     for cont in containers:
         for origin in ORIGINS:
@@ -170,6 +170,16 @@ def cases(tier):
                 for scatter in (True, False):
                     for hi in range(2 ** len(HI)):
                         out.append({'origin': origin, 'target': target, 'scatter': scatter, 'container': cont, 'hi': hi, 'origin_present': True})
+    # precision / call-history family: same conversion in single precision first, then in double (and integer origin
+    # coordinates, single-precision energies): the outcome class and the value may not depend on the dtype or on
+    # what was converted before (module state reset by reloading the kernel module at the start of each case)
+    for origin in ORIGINS:
+        for target in ('wavelength', 'energy', 'dspacing', 'Q', 'energy_transfer'):
+            if target == origin:
+                continue
+            for order in (('float32', 'float64'), ('float64', 'float32'), ('int64', 'float64')):
+                for edt in ('float64', 'float32'):
+                    out.append({'kind': 'precision', 'origin': origin, 'target': target, 'order': list(order), 'energy_dtype': edt})
     if tier == 'thorough':
         for target in TARGETS:
             if target == 'tof':
@@ -215,7 +225,73 @@ def _squeeze_expected(exp, vector):
     return np.squeeze(e)
 
 
+def _run_precision(case, rec):
+    import importlib
+
+    from scippneutron.conversion import tof as _kt
+
+    origin, target = case['origin'], case['target']
+    site = 'core.convert'
+    present = [n for n in dv.GEOMETRY if n not in ('incident_energy', 'final_energy')]
+    if target == 'energy_transfer':
+        variants = [[*present, 'incident_energy'], [*present, 'final_energy']]
+    else:
+        variants = [present]
+    for pres in variants:
+        importlib.reload(_kt)  # fresh module-level state: what is converted first in this case is really first
+        have = set(pres) | {origin}
+        mode = dv.energy_mode(origin, target, have)
+        graph = dv.rules(origin, target, True, mode) if mode else None
+        want_val = bool(mode) and dv.derivable(graph, target, have)
+        for dtype in case['order']:
+            rec.states += 1
+            rec.transitions += 1
+            data = _make(origin, pres, 'DataArray', True, False)
+            data.coords[origin] = data.coords[origin].astype(dtype)
+            for en in ('incident_energy', 'final_energy'):
+                if en in data.coords:
+                    data.coords[en] = data.coords[en].astype(case['energy_dtype'])
+            sub = {'present': pres, 'dtype': dtype, 'energy_dtype': case['energy_dtype'], 'order': case['order']}
+            try:
+                res = scn.convert(data, origin=origin, target=target, scatter=True)
+                outcome = 'value'
+            except RuntimeError as e:
+                outcome, res = 'runtime_error', e
+            except Exception as e:  # noqa: BLE001
+                outcome, res = 'other:' + type(e).__name__, e
+            rec.evals += 1
+            rec.validated += 1
+            rec.observe(outcome)
+            if outcome.startswith('other'):
+                rec.viol(site, 'wrong_exception', f'{outcome}: {res}', **sub)
+                continue
+            if want_val != (outcome == 'value'):
+                rec.viol(site, 'refused_derivable' if want_val else 'answered_underivable', f'dtype {dtype}: model derivable={want_val}, convert -> {outcome}: {res if outcome != "value" else ""}', **sub)
+                continue
+            if outcome != 'value':
+                rec.cls('runtime_error')
+                continue
+            rec.cls('value')
+            rec.cls('precision_' + dtype)
+            rec.nontrivial += 1
+            envv = {n: _V[n] for n in have if n in _V}
+            envv[origin] = np.asarray(data.coords[origin].values, dtype='float64')  # the values the kernel received
+            exp = _expected(graph, target, envv, set())
+            if isinstance(exp, tuple):
+                exp = exp[1]
+            got = _np_result(res.coords[target], target)
+            e = _squeeze_expected(exp, False)
+            single = 'float32' in (dtype, case['energy_dtype'] if target == 'energy_transfer' else dtype)
+            rtol = 1e-5 if single else 1e-9
+            if got.shape != e.shape or not np.allclose(got, e, rtol=rtol, atol=0.0, equal_nan=True):
+                with np.errstate(invalid='ignore', divide='ignore'):
+                    rel = np.nanmax(np.abs(got - e) / np.abs(e)) if got.shape == e.shape else float('nan')
+                rec.viol(site, 'wrong_value_precision_history', f'{dtype} conversion (order {case["order"]}): got {got.ravel()[:3]}, formulas give {e.ravel()[:3]} (max rel diff {rel:.3g}, tolerance {rtol:g})', **sub)
+
+
 def run_case(case, rec):
+    if case.get('kind') == 'precision':
+        return _run_precision(case, rec)
     origin, target, scatter = case['origin'], case['target'], case['scatter']
     cont, origin_present = case['container'], case['origin_present']
     aux = target in TARGETS_EXTRA
